@@ -327,9 +327,20 @@ def gen_elf(rng, big=False):
     machine, defshift, ptr = rng.choice(ELF_MACHINES[(w64, be)])
     shift = defshift
     vmci = b"OSRELEASE=5.14.21-test\n"
+    if defshift and rng.random() < 0.2:
+        # a PAGESIZE line that strtoul() does not consume completely is ignored
+        vmci += rng.choice([b"PAGESIZE=8192k\n", b"PAGESIZE=0x2000\n", b"PAGESIZE=16384 \n", b"PAGESIZE=4096.0\n"])
     if not defshift or rng.random() < 0.25:
         shift = rng.choice([12, 12, 12, 13, 13, 14, 16]) if (not defshift or rng.random() < 0.5) else defshift
-        vmci += b"PAGESIZE=%d\n" % (1 << shift)
+        if rng.random() < 0.2:          # an earlier announcement is overridden by a later one
+            vmci += b"PAGESIZE=%d\n" % (1 << rng.choice([12, 13, 16]))
+        # strtoul() accepts leading blanks, a sign and leading zeros
+        vmci += b"PAGESIZE=" + rng.choice([b"", b"", b"", b" ", b"+", b"\t+", b"000"]) + b"%d\n" % (1 << shift)
+        if rng.random() < 0.3:
+            vmci += rng.choice([b"PAGESIZEX=4096\n", b"XPAGESIZE=8192\n", b"CRASHTIME=12345\n",
+                                b"PAGESIZE=65536x\n"])
+        if rng.random() < 0.2:
+            vmci = vmci[:-1]            # no newline at the end of the text
     pgsz = 1 << shift
     addr_lim = (1 << 32) - 2 * pgsz if not w64 else (1 << 46)
     nload = rng.randint(1, 6)
@@ -393,9 +404,17 @@ def gen_elf(rng, big=False):
             vcur = (vcur + pgsz - 1) // pgsz * pgsz + (s["phys"] % pgsz)
             s["virt"] = vcur
             vcur += s["memsz"] + rng.choice([0, 0, pgsz, rng.randrange(1, 2 * pgsz)])
-    note = {"type": 4, "flags": 0, "phys": 0, "virt": 0, "memsz": 0, "align": 0, "gap": 0,
-            "data": elf_note(be, b"VMCOREINFO", 0, vmci)}
+    notes = elf_note(be, b"VMCOREINFO", 0, vmci)
+    k = rng.random()
+    if k < 0.25:                        # other notes around it, with lengths that need padding
+        notes = elf_note(be, b"FOO", 7, bytes(rng.randrange(0, 11))) + notes
+    elif k < 0.4:
+        notes = notes + elf_note(be, b"QEMUX", 1, b"PAGESIZE=2048\n")
+    note = {"type": 4, "flags": 0, "phys": 0, "virt": 0, "memsz": 0, "align": 0, "gap": 0, "data": notes}
     segs = [note] + loads
+    if rng.random() < 0.15:             # a second NOTE segment
+        segs.append({"type": 4, "flags": 0, "phys": 0, "virt": 0, "memsz": 0, "align": 0, "gap": 0,
+                     "data": elf_note(be, b"BAR", 3, b"xyz")})
     if rng.random() < 0.3:
         segs.append({"type": rng.choice([0, 6, 0x6474e551]), "flags": 0, "phys": 0x5000, "virt": 0x5000,
                      "memsz": pgsz, "align": 0, "gap": 0, "data": b"ignored"})
